@@ -230,9 +230,20 @@ package leveldb
 // the one-millisecond slowdown, and it is taken at most once per write (it flips `delayed`), so the retry loop of
 // flush cannot spin on it while holding the write lock.
 //@ count (*DB).compTriggerWait
+// ... and a retry after waiting for a table compaction is taken only when a compaction was due: with the pause
+// trigger at or below the number of level-0 tables and no compaction needed (WriteL0PauseTrigger below
+// CompactionL0Trigger), the wait is answered at once and the writer would retry for ever while holding the write
+// lock, every later writer waiting behind it (F36).
+//@ ghost var gCompactionDue bool
 //@ func (*DB).flush$1
-//@   props C09
+//@   props C09 C10
 //@   safety off
+//@   at entry
+//@     ghost gCompactionDue = false
+//@   at call (*DB).tableNeedCompaction#1
+//@     ghost gCompactionDue = result
+//@   at before call (*DB).compTriggerWait#1
+//@     assert [C09,C10:a-writer-waits-for-a-table-compaction-only-when-one-is-due] gCompactionDue
 //@   ensures [C09:a-retry-without-waiting-for-a-compaction-happens-only-once] (result && calls("(*DB).compTriggerWait") == old(calls("(*DB).compTriggerWait"))) ==> (delayed && !old(delayed))
 
 //@ func (*DB).writeLocked
